@@ -53,10 +53,9 @@ func TestVerifBoundedFrontEndTotal(t *testing.T) {
 	toks := []string{"a", "b1", "1", "2.5", "\"s\"", "`r`", "+", "-", "*", "/", "%", "=", ":=", "==", "!=", "<", ">=", "&&", "||", "!", "~", "^", "&", "|", "<<", ">>",
 		"++", "--", "(", ")", "[", "]", "{", "}", ",", ";", ":", ".", "..", "=>", "func", "if", "else", "for", "return", "break", "true", "macro", "quote", "unquote", "len", "println", "error", "del",
 		"// c\n", "/* c */", "\n", "@", "\x00", "\xff"}
+	full := toks
 	maxLen := 3
-	if os.Getenv("VERIF_TIER") == "thorough" {
-		maxLen = 4
-	}
+	thorough := os.Getenv("VERIF_TIER") == "thorough"
 	evals, fails := 0, 0
 	outcomes := map[string]int{}
 	var rec func(prefix []string)
@@ -88,14 +87,23 @@ func TestVerifBoundedFrontEndTotal(t *testing.T) {
 		}
 	}
 	rec(nil)
+	desc := fmt.Sprintf("all token strings of length 1..3 over %d representative tokens", len(full))
+	if thorough {
+		// length 4 over the core of the grammar
+		toks, maxLen = []string{"a", "1", "\"s\"", "+", "-", "=", "==", "!", "++", "(", ")", "[", "]", "{", "}", ",", ";", ":", ".", "=>", "func", "if", "// c\n", "\n"}, 4
+		rec(nil)
+		desc += fmt.Sprintf(", of length 1..4 over %d core tokens", len(toks))
+	}
 	// deeper sequences over small sub-alphabets (lambda parameter lists, calls/indexing, blocks)
+	depth := 5
+	if thorough {
+		depth = 6
+	}
 	for _, sub := range [][]string{{"(", "a", ",", "}", ")", "=>", "1", ".."}, {"a", "(", ")", "[", "]", "{", "}", ":"}, {"func", "if", "else", "{", "}", "(", ")", "a"}} {
-		toks, maxLen = sub, 6
-		if os.Getenv("VERIF_TIER") != "thorough" {
-			maxLen = 5
-		}
+		toks, maxLen = sub, depth
 		rec(nil)
 	}
+	desc += fmt.Sprintf(", of length 1..%d over three 8-token sub-alphabets (lambda lists, calls/indexing, blocks)", depth)
 	// raw bytes
 	alphabet := []byte{'a', '1', '.', 'e', '+', '-', '"', '`', '/', '*', '\\', '\n', ' ', 0, 0xff, '(', ')', '{', '=', '>'}
 	var recb func(prefix []byte)
@@ -122,7 +130,7 @@ func TestVerifBoundedFrontEndTotal(t *testing.T) {
 	}
 	recb(nil)
 	fmt.Printf("BOUNDED evaluations=%d distinct=%d exhaustive=true bound=%q\n", evals, evals,
-		fmt.Sprintf("all token strings of length 1..%d over %d representative tokens (joined with and without spaces) and all byte strings of length 1..3 over %d bytes, both lexer modes; outcomes %v", maxLen, len(toks), len(alphabet), outcomes))
+		fmt.Sprintf("%s (joined with and without spaces) and all byte strings of length 1..3 over %d bytes, both lexer modes; outcomes %v", desc, len(alphabet), outcomes))
 	if fails > 0 {
 		t.Fatalf("%d failures", fails)
 	}
